@@ -106,6 +106,14 @@ CHECKS = {
             'results are released late, and a with-items accounting job is lost (stuck task recovered by the real integrity check); TLC '
             'judges ExpiredFailed, NeverExpireFresh, NoStuckTaskAtRest, ResultOnce/FinishedFrozen (late genuine result inert) and NoHang.',
             ENG_NOTE, ENG_TECH, '5, 7-C20'),
+    'C15': ('tenancy', 'model_checking',
+            'Tenancy.tla is the policy (CanSee / CanChange) as a one-step state machine; TLC enumerates 11 resource types x owner x scope x '
+            'membership status x actor project x admin x operation (get by id, by name, list, update, delete, create naming another '
+            'project) and checks NoForeignRead / NoForeignWrite / PrivateInvisible; the full table is executed on real rows through the '
+            'real db api under the actor context (auth enabled, same-name rows in both projects) and TLC judges every recorded outcome '
+            '(found => CanSee, changed/deleted => CanChange, new row owned by caller) and validates it as a model behaviour.',
+            'db-api level (REST authorisation is C16); expression functions executions()/tasks() are not covered; sqlite.',
+            'TLA+ policy model checked by TLC + exhaustive decision-table replay on real rows with TLC trace validation', '6.5'),
 }
 
 NOT_YET = 'check not built yet (build in progress; see DESIGN.md section 12)'
